@@ -150,7 +150,7 @@ Definition destroys (names : list id) (e : effect) : bool :=
   | WriteHashed _ _ | CreateRepo => false
   end.
 
-Definition valuation := string -> bool.
+Definition valuation := flag -> bool.
 Definition holds (v : valuation) (c : cond) : bool := Bool.eqb (v (fst c)) (snd c).
 Definition conds_hold (v : valuation) (s : site) : bool := forallb (holds v) (s_conds s).
 
@@ -212,8 +212,8 @@ Definition eff_names (names : list id) (e : effect) : list id :=
 Definition next_ao (st : state) (o : op) (r : result) : bool :=
   match o_entry o, r with
   | EApplyConfig, Done =>
-      if o_flags o "set_append_only_is_false" then false
-      else if o_flags o "set_append_only_is_true" then true else st_ao st
+      if o_flags o F_set_append_only_is_false then false
+      else if o_flags o F_set_append_only_is_true then true else st_ao st
   | _, _ => st_ao st
   end.
 
@@ -229,7 +229,7 @@ Fixpoint run (st : state) (ops : list op) : list (state * op * result * list eff
   end.
 
 (* ---- static checks on the extracted table *)
-Definition cond_eqb (a b : cond) : bool := String.eqb (fst a) (fst b) && Bool.eqb (snd a) (snd b).
+Definition cond_eqb (a b : cond) : bool := N.eqb (fst a) (fst b) && Bool.eqb (snd a) (snd b).
 Definition cond_mem (c : cond) (l : list cond) : bool := existsb (cond_eqb c) l.
 
 (* can the site emit an effect that removes / replaces a protected file *)
@@ -268,7 +268,7 @@ Definition has_dry (e : entry) : bool :=
   | ERepairHotcold | ERepairHotcoldPacks => true
   | _ => false
   end.
-Definition dry_cond : cond := ("dry_run", false).
+Definition dry_cond : cond := (F_dry_run, false).
 Definition dry_complete (f : efacts) : bool :=
   forallb (fun s => cond_mem dry_cond (s_conds s)) (f_pre f ++ f_post f).
 
@@ -282,15 +282,18 @@ Definition inventory_closed_b : bool :=
 
 (* ---- for the correspondence: which effect classes may an entry emit, given the flags that are
    known (None = unknown: data dependent) *)
-Definition holds3 (v : string -> option bool) (c : cond) : bool :=
+Definition holds3 (v : flag -> option bool) (c : cond) : bool :=
   match v (fst c) with Some b => Bool.eqb b (snd c) | None => true end.
-Definition may_run (v : string -> option bool) (s : site) : bool := forallb (holds3 v) (s_conds s).
-Definition guard_fires3 (ao : bool) (v : string -> option bool) (g : list cond) : bool :=
+Definition may_run (v : flag -> option bool) (s : site) : bool := forallb (holds3 v) (s_conds s).
+Definition guard_fires3 (ao : bool) (v : flag -> option bool) (g : list cond) : bool :=
   ao && forallb (holds3 v) g.
-Definition allowed (e : entry) (ao : bool) (v : string -> option bool) : result * list site :=
+Definition allowed (e : entry) (ao : bool) (v : flag -> option bool) : result * list site :=
   let f := entry_facts e in
   match f_guard f with
   | Some g => if guard_fires3 ao v g then (Refused, filter (may_run v) (f_pre f))
               else (Done, filter (may_run v) (f_pre f ++ f_post f))
   | None => (Done, filter (may_run v) (f_pre f ++ f_post f))
   end.
+
+(* the shared OCaml prelude converts to Z as well: keep the type in the extracted module *)
+Definition z_keep (z : BinNums.Z) : BinNums.Z := z.
